@@ -40,7 +40,7 @@ const c03RepoPrefix = "github.com/elastos/Elastos.ELA/"
 func init() {
 	kit.Register(&kit.Spec{
 		ID: "C03",
-		Rule: "A: program codes (lengths 0..80, every classifier boundary byte at first/second/last/second-last position, standard/schnorr/multisig/cross-chain scripts with 1-byte, 2-byte and opcode m/n encodings, truncated and extended) x parameters (0..80, k*65, 63/64/65) fed to the classifiers, script parsers, RunPrograms and the multisig verifiers; aux-pow structures (aux branch 0..40, parent coinbase with 0..2 inputs, script with/without/truncated merged-mining commitment, size as the node computes it) re-decoded from their wire bytes and fed to AuxPow.Check / CheckProofOfWork; GetExpectedIndex for every height 0..40. " +
+		Rule: "A: program codes (lengths 0..80, every classifier boundary byte at first/second/last/second-last position, standard/schnorr/multisig/cross-chain scripts with 1-byte, 2-byte and opcode m/n encodings, truncated and extended) x parameters (0..80, k*65, 63/64/65) fed to the classifiers, script parsers, RunPrograms and the multisig verifiers; directed hostile public keys (x>=P decompressible / not, x=P, x=2^256-1, x=0, off-curve x<P, both parities, prefix bytes 00/04/05/06/07/ff) in Schnorr, standard, multisig and cross-chain scripts with in-range 64/65-byte signatures through RunPrograms and the direct verifiers, and on the live node by spending UTXOs funded at such Schnorr-script addresses; aux-pow structures (aux branch 0..40, parent coinbase with 0..2 inputs, script with/without/truncated merged-mining commitment, size as the node computes it) re-decoded from their wire bytes and fed to AuxPow.Check / CheckProofOfWork; GetExpectedIndex for every height 0..40. " +
 			"B: on a live regnet node, transactions of every type x payload version 0..5 with reflect-filled payloads, spending real UTXOs held at standard / schnorr / multisig / cross-chain / crafted-script addresses, re-decoded from their wire bytes, pushed through CheckTransactionSanity then (only if it passed, as the node does) CheckTransactionContext, and through AppendToTxPool; blocks with hostile aux-pow, 0..4 coinbase outputs, arbitrary header height, hostile transactions, re-decoded from wire bytes, through CheckBlockSanity, ProcessBlock and BlockPool.AddDposBlock (the p2p entry); in four activation-height regimes. " +
 			"distinct = distinct (entry point, input bytes); non-trivial = the input decoded and the call got past the entry point's first length/emptiness gate (code non-empty; aux-pow parent root consistent; transaction passed sanity or reached the type specific check)",
 		Shards:           func(tier string) int { return 8 },
@@ -49,6 +49,7 @@ func init() {
 		FatalSig:         c03FatalSig,
 		MemLimitMB:       6144,
 		Require: []string{"A_classifier_calls", "A_runprograms_calls", "A_auxpow_check_calls", "A_expected_index_calls", "A_pow_calls",
+			"A_hostile_key_runprograms_calls", "A_hostile_noncanonical_decompressible_keys", "A_hostile_key_rejected", "B_hostile_key_txs_sanity_pass",
 			"A_honest_std_accept", "A_honest_multisig_accept", "A_honest_auxpow_accept", "A_multisig_classified_true", "A_auxpow_reached_index",
 			"B_tx_decoded", "B_tx_sanity_pass", "B_tx_context_calls", "B_pool_calls", "B_honest_pool_accept", "B_block_sanity_calls",
 			"B_processblock_calls", "B_adddposblock_calls", "B_honest_block_accept", "B_tx_types_sanity_pass", "B_special_context_reached"},
@@ -334,6 +335,7 @@ func (x *c03Run) partA() {
 			c.Violate("control:honest-multisig-program-rejected", err.Error(), nil)
 		}
 	}
+	x.partAKeys()
 	nA2 := c.N(5000, 100000)
 	for i := 0; i < nA2; i++ {
 		np := 1 + r.Intn(2)
